@@ -247,11 +247,8 @@ fn trim_regex<'a>(line: &'a [u8], trim_kind: &Trim, re: &Regex) -> &'a [u8] {
 macro_rules! write_maybe_as_json {
     ($writer:ident, $to_print:ident, $as_json:expr) => {{
         if $as_json {
-            $writer.write_all(unsafe {
-                // Safe as long as we were not requested to cut in the middle of a codepoint
-                // (and then we're pretty much doing what was asked)
-                serde_json::to_string(std::str::from_utf8_unchecked(&$to_print))?.as_bytes()
-            })?;
+            // JSON strings are Unicode: text that is not valid UTF-8 is an error
+            $writer.write_all(serde_json::to_string(std::str::from_utf8(&$to_print)?)?.as_bytes())?;
         } else {
             $writer.write_all(&$to_print)?;
         }
